@@ -62,6 +62,14 @@ def cases(tier):
                     for ep in ('ortho', 'right_on_left', 'left_on_right'):
                         for mr in [1, 2, 3, 4] + [[1] + list(x_) + [1] for x_ in itertools.product([1, 2, INF], repeat=d_ - 1)]:
                             yield {'ep': ep + '_shared', 'n': n_, 'd': d_, 'rk': rk_, 'c': c, 'thr': 0, 'mr': mr}
+    # one-sided sweeps with a relative threshold on a two-core train whose bond spectrum is prescribed (the other core is an isometry):
+    # exactly the singular values with s_k / s_0 > threshold survive -- relative to the LARGEST one, however many comparable ones there are
+    for spec in ((1.0, 1.0, 1.0, 0.5), (1.0, 0.9, 0.8, 0.3, 0.3), (2.0, 2.0, 1.0, 1.0), (1.0, 0.5, 1e-3, 1e-3)):
+        for thr in (0.4, 0.25, 0.6, 1e-2, 1e-4):
+            for c in (False, True):
+                for side in ('left', 'right'):
+                    for scale in (1.0, 1e-9, 1e6):
+                        yield {'ep': 'bondthr', 'spec': list(spec), 'thr': thr, 'c': c, 'side': side, 'scale': scale, 'mr': INF}
     deep_only = [[[3, 2], [4, 2]], [[2, 2], [3, 2], [2, 1]], [[4, 2], [3, 2]]]      # unfoldings of rank 6 (wide and tall): cuts down to 1e-10
     for sites in layouts(tier) + deep_only:
         d = len(sites)
@@ -230,6 +238,42 @@ def run_over(case, seed):
     return r
 
 
+def run_bondthr(case, seed):
+    r = R(case)
+    rng = rng_for(case, seed)
+    sp = np.array(case['spec']) * case['scale']; k = len(sp); thr = case['thr']; c = case['c']
+    if np.any(np.abs(np.log(sp / sp[0] / thr)) < 0.2):
+        r.skipped += 1          # the cut must not sit on a singular value (D7)
+        return r
+    n = k + 1
+
+    def iso(p_, q_):
+        a_ = rng.standard_normal((p_, q_)) + (1j * rng.standard_normal((p_, q_)) if c else 0)
+        return np.linalg.qr(a_)[0]
+    U, V = iso(n, k), iso(n, k)
+    x = (U * sp) @ V.conj().T                                   # n x n matrix with the prescribed singular values
+    if case['side'] == 'left':
+        cores = [(U * sp).reshape(1, n, 1, k), V.conj().T.reshape(k, n, 1, 1)]      # bond spectrum sits in the first core
+    else:
+        cores = [U.reshape(1, n, 1, k), (sp[:, None] * V.conj().T).reshape(k, n, 1, 1)]
+    T = tt_from(cores)
+    keep = int(np.sum(sp / sp[0] > thr))
+    r.nontrivial = keep < k
+    key = 'trunc:bond-threshold:' + case['side']
+    with r.op(key + ':call'):
+        if case['side'] == 'left':
+            T.ortho_left(threshold=thr)
+        else:
+            T.ortho_right(threshold=thr)
+        mp = meta_problem(T)
+        if r.true(key + ':meta', mp is None, mp):
+            r.true(key + ':rank', T.ranks[1] == keep, 'bond rank %d, singular values with s/s0 > %g: %d (spectrum %s)' % (T.ranks[1], thr, keep, case['spec']))
+            err = np.linalg.norm(dn(T).reshape(n, n) - x)
+            r.le(key + ':error', err, np.sqrt(np.sum(sp[keep:] ** 2)) * (1 + 1e-8), 1e-10 * sp[0], 'discarded part')
+    r.outcome = 'bondthr'
+    return r
+
+
 def run_shared(case, seed):
     """truncating sweeps over [a] + [c] * k + [b]: the interior cores are one ndarray object"""
     r = R(case)
@@ -278,6 +322,8 @@ def run_case(case, seed):
         return run_over(case, seed)
     if case['ep'].endswith('_shared'):
         return run_shared(case, seed)
+    if case['ep'] == 'bondthr':
+        return run_bondthr(case, seed)
     r = R(case)
     rng = rng_for({k: case[k] for k in ('sites', 'fam', 'c')}, seed)   # same tensor for all settings of a layout
     x = make_tensor(case, rng)
